@@ -9,7 +9,7 @@ def ob(id, entry, mode, cases, expect, bounds, **kw):
 OBLIGATIONS = [
     ob('C03.bg', 'h_c03_bg', 'real', [(1, 0, 0, 0), (2, 1, 0, 0), (2, 2, 0, 1), (2, 1, 1, 0), (1, 1, 1, 1)],
        ['answer is long enough', 'background temperature is the adiabat', 'background composition is zero', 'background grains are zero', 'background tag is -1', 'background velocity is zero', 'end'],
-       'L<=2 entries (quick) / L<=3 (thorough); 0..2 non-covering stub features; Cartesian and spherical; 2D and 3D', native=False,
+       'L<=2 entries (quick) / L<=3 (thorough); 0..2 non-covering stub features; Cartesian and spherical; 2D and 3D', native=True,
        cases_thorough=[(1, 0, 0, 0), (2, 1, 0, 0), (3, 2, 0, 0), (3, 1, 0, 1), (2, 1, 1, 0), (3, 1, 1, 0), (2, 1, 1, 1)]),
     ob('C03.force', 'h_c03_force', 'fpu', [(1, 0, 0), (1, 1, 0), (2, 1, 0), (2, 2, 0), (2, 1, 1)],
        ['forced surface temperature at depth zero', 'without the flag the last covering feature decides', 'end'],
